@@ -70,6 +70,8 @@ def gen_plan(seed, tier):
   desc["tuples"] = r.randint(8, 30)
   if r.random() < 0.3:
     desc["kind"] = "grid"
+  elif r.random() < 0.2:
+    desc["offset"] = r.choice([1e3, 1e5, 1e7])     # large common offset relative to the spread
   prior = r.choice(["identity", "identity", "covariance", "random", "array"])
   if desc["kind"] == "grid" and prior == "covariance":
     prior = "identity"
